@@ -31,7 +31,8 @@ class C06(Check):
         if shared and kind_mem == "array" and rng.random() < 0.25:
             kind_mem = "percpu"         # a variable of a per-CPU array map: instances on one CPU preempt each other
         if shared and kind_mem == "array" and rng.random() < 0.3:
-            kind_mem = "ptr"            # the array-map variable through a pointer register: e.mI[e.r9 + offset] += amount
+            kind_mem = "ptr"
+        xdp = rng.choice([14, 20, 32]) if kind_mem in ("ptr", "array") and shared and rng.random() < (0.6 if kind_mem == "ptr" else 0.25) else None            # the array-map variable through a pointer register: e.mI[e.r9 + offset] += amount
         k = rng.choice([2, 2, 3]) if shared else 1
         kind = rng.choice(["const", "reg", "expr", "expr"])
         ofmt = rng.choice(exprs.FMTS)
@@ -57,7 +58,7 @@ class C06(Check):
         return {"fmt": fmt, "shared": shared, "mem": kind_mem, "k": k, "op": rng.choice(["iadd", "isub"]), "amount": amount,
                 "ofmt": ofmt, "oval": oval, "regvals": regvals,
                 "init": rng.choice([0, 25000, -25000, -1, 1, 2 ** 32 - 50000, 2 ** 32 - 1, -2 ** 32 + 50000, 2 ** 31, 7 * 2 ** 32 - 3]) if fmt == "x" else exprs.rand_value(rng, fmt),
-                "neighbours": [rng.randrange(2 ** 32), rng.randrange(2 ** 32)], "schedseed": rng.randrange(2 ** 30), "preg": rng.choice([6, 8, 9])}
+                "neighbours": [rng.randrange(2 ** 32), rng.randrange(2 ** 32)], "schedseed": rng.randrange(2 ** 30), "preg": rng.choice([6, 8, 9]) if xdp is None else rng.choice([6, 8]), "xdp": xdp}
 
     def gen_cases(self):
         return [self.make_case(self.rng) for _ in range(150 if self.tier == "quick" else 1500)]
@@ -81,7 +82,8 @@ class C06(Check):
             c["decls"] = decls
             for rv in c["regvals"]:
                 tgt = ["p", "v", c.get("preg", 9)] if c.get("mem") == "ptr" else ["v", "v"]
-                b = dsl.build(decls, [["set", ["r", "r", 3], ["c", rv]], [c["op"], tgt, c["amount"]]])
+                # "xdp": the statement sits in an XDP program with a minimum packet size (a packet object exists)
+                b = dsl.build(decls, [["set", ["r", "r", 3], ["c", rv]], [c["op"], tgt, c["amount"]]], xdp_min=c.get("xdp"))
                 if b.error is not None:
                     c["_err"] = b.error
                     break
@@ -114,6 +116,8 @@ class C06(Check):
                 tab = (f"{{| h_id := 100; h_key := 1%nat; h_value := 8%nat; h_max := 8; "
                        f"h_tab := [([{b.layout['v'][2]}], 0%nat)] |}}")
                 terms.append(f"(multis_h {progs} [{ebpf_exec.cbytes(cell)}] [{tab}] {ebpf_exec.cbytes(stack)} {sch})")
+            elif c.get("xdp") is not None:
+                terms.append(f"(multis_p {progs} {ebpf_exec.cbytes(bytes(range(64)))} {ms} {ebpf_exec.cbytes(stack)} {sch})")
             else:
                 terms.append(f"(multis {progs} {ms} {ebpf_exec.cbytes(stack)} {sch})")
             idx.append(i)
@@ -199,7 +203,7 @@ class C06(Check):
         return [isa_check.check(self.seed + 3, 40 if self.tier == "quick" else 300), hash_check.check(self.seed + 7, 40 if self.tier == "quick" else 300)]
 
     def rule(self):
-        return ("v += / -= amount on an i/I/q/Q/x variable of a shared array map (directly, or through a pointer register r6/r8/r9: e.mI[e.r9 + offset] += amount) or hash map or per-CPU array map (instances preempting each other on one CPU) between two 4-byte neighbours (80%; else a local, single instance), amount = constant "
+        return ("v += / -= amount on an i/I/q/Q/x variable of a shared array map (directly, or through a pointer register r6/r8/r9: e.mI[e.r9 + offset] += amount) or hash map or per-CPU array map (instances preempting each other on one CPU); a third of the array-map cases inside an XDP program with a minimum packet size between two 4-byte neighbours (80%; else a local, single instance), amount = constant "
                 "(small, 2**31, 2**32+5, negative) / r or sr register / expression over the register, a private local and constants; 2-3 instances with different "
                 "register values; schedules: round robin, sequential both ways, four adversarial ones (everybody up to 2..5 instructions before its end, then round "
                 "robin), 4 (thorough 12) random shuffles")
